@@ -55,7 +55,9 @@ def _fresh_config(I, cls, value):
     saved = os.environ.get("PHYST_FREE_ARITHMETICS")
     os.environ["PHYST_FREE_ARITHMETICS"] = value
     try:
-        return cls()
+        o = object.__new__(cls)          # the class is a singleton (its __new__ refuses a second instance): initialise a raw one
+        cls.__init__(o)
+        return o
     finally:
         if saved is None:
             os.environ.pop("PHYST_FREE_ARITHMETICS", None)
